@@ -8,9 +8,8 @@ From GJ Require Import Base.Bytes Gen.Tables Model.Int Model.StrDec Model.Compac
 Import ListNotations.
 Open Scope N_scope.
 
-Section Iface.
-  (* strconv.ParseFloat(s, 64) succeeds on a grammatical number (range check) *)
-  Variable float_in_range : list N -> bool.
+(* float_in_range: strconv.ParseFloat(s, 64) succeeds on a grammatical number
+   (range check) - an oracle parameter of every function below *)
 
   Definition max_depth : nat := Z.to_nat dec_maxDecodeNestingDepth.
 
@@ -33,7 +32,7 @@ Section Iface.
                 else Some ([], l)
     end.
 
-  Definition d_number (l : list N) : cres (list N) :=
+  Definition d_number (float_in_range : list N -> bool) (l : list N) : cres (list N) :=
     match l with
     | [] => CStuck
     | c :: r =>
@@ -73,7 +72,7 @@ Section Iface.
         end
     end.
 
-  Fixpoint d_value (fuel : nat) (depth : nat) (l : list N) : cres (list N) :=
+  Fixpoint d_value (float_in_range : list N -> bool) (fuel : nat) (depth : nat) (l : list N) : cres (list N) :=
     match fuel with
     | O => CFuel
     | S f =>
@@ -85,15 +84,15 @@ Section Iface.
               if Nat.ltb max_depth (S depth) then CErr
               else match d_skip_ws r with
                    | [] => CStuck
-                   | c1 :: r1 => if c1 =? 125 then COk r1 else d_members f (S depth) (c1 :: r1)
+                   | c1 :: r1 => if c1 =? 125 then COk r1 else d_members float_in_range f (S depth) (c1 :: r1)
                    end
             else if c =? 91 then
               if Nat.ltb max_depth (S depth) then CErr
               else match d_skip_ws r with
                    | [] => CStuck
-                   | c1 :: r1 => if c1 =? 93 then COk r1 else d_elements f (S depth) (c1 :: r1)
+                   | c1 :: r1 => if c1 =? 93 then COk r1 else d_elements float_in_range f (S depth) (c1 :: r1)
                    end
-            else if (c =? 45) || isdig c then d_number (c :: r)
+            else if (c =? 45) || isdig c then d_number float_in_range (c :: r)
             else if c =? 34 then d_string (c :: r)
             else if c =? 116 then d_literal [116; 114; 117; 101] (c :: r)
             else if c =? 102 then d_literal [102; 97; 108; 115; 101] (c :: r)
@@ -101,7 +100,7 @@ Section Iface.
             else CErr
         end
     end
-  with d_members (fuel : nat) (depth : nat) (l : list N) : cres (list N) :=
+  with d_members (float_in_range : list N -> bool) (fuel : nat) (depth : nat) (l : list N) : cres (list N) :=
     match fuel with
     | O => CFuel
     | S f =>
@@ -115,13 +114,13 @@ Section Iface.
                      | [] => CStuck
                      | c :: r2 =>
                          if negb (c =? 58) then CErr
-                         else match d_value f depth r2 with
+                         else match d_value float_in_range f depth r2 with
                               | COk r3 =>
                                   match d_skip_ws r3 with
                                   | [] => CStuck
                                   | c3 :: r4 =>
                                       if c3 =? 125 then COk r4
-                                      else if c3 =? 44 then d_members f depth r4
+                                      else if c3 =? 44 then d_members float_in_range f depth r4
                                       else CErr
                                   end
                               | x => x
@@ -131,17 +130,17 @@ Section Iface.
                  end
         end
     end
-  with d_elements (fuel : nat) (depth : nat) (l : list N) : cres (list N) :=
+  with d_elements (float_in_range : list N -> bool) (fuel : nat) (depth : nat) (l : list N) : cres (list N) :=
     match fuel with
     | O => CFuel
     | S f =>
-        match d_value f depth l with
+        match d_value float_in_range f depth l with
         | COk r1 =>
             match d_skip_ws r1 with
             | [] => CStuck
             | c :: r2 =>
                 if c =? 93 then COk r2
-                else if c =? 44 then d_elements f depth r2
+                else if c =? 44 then d_elements float_in_range f depth r2
                 else CErr
             end
         | x => x
@@ -149,8 +148,8 @@ Section Iface.
     end.
 
   (* Unmarshal(data, &v): decode, then validateEndBuf *)
-  Definition iface_unmarshal (data : list N) : cres unit :=
-    match d_value (top_fuel data) 0 (data ++ [0]) with
+  Definition iface_unmarshal (float_in_range : list N -> bool) (data : list N) : cres unit :=
+    match d_value float_in_range (top_fuel data) 0 (data ++ [0]) with
     | COk rest =>
         match validate_end rest with
         | None => CStuck
@@ -159,4 +158,3 @@ Section Iface.
         end
     | CErr => CErr | CFuel => CFuel | CStuck => CStuck
     end.
-End Iface.
